@@ -487,3 +487,5 @@ def crash_sig(case, ex, where, tb):
 
 def run_case(case, res):
     {"history": run_history, "integral": run_integral, "run": run_run}[case["gen"]](case, res)
+
+RULE += (" " + 'User callables whose values are python ints at some points and floats at others.')
